@@ -90,6 +90,24 @@ def member_call(tr, ok, name, obj, arrow, argn, n):
         if ok in ('opt', 'result') and name == 'operator bool':
             return '%s.has' % objval()
         return None
+    if ok == 'veckv':
+        # size-only model of the parameter list
+        o = objval()
+        if name == 'clear':
+            return '(%s.n = 0)' % o
+        if name == 'reserve':
+            return '((void)(%s))' % tr.e(argn[0])
+        if name in ('size',):
+            return '%s.n' % o
+        if name == 'empty':
+            return '(%s.n == 0)' % o
+        if name in ('emplace_back', 'push_back'):
+            ev = []
+            for a in argn:
+                k, e = argkind(tr, a)
+                ev.append('(void)(%s)' % e)
+            return '(%s, %s.n++)' % (', '.join(ev), o) if ev else '(%s.n++)' % o
+        return None
     if ok == 'sv':
         kinds, exprs = norm_args(tr, argn)
         if name in ('remove_prefix', 'remove_suffix', 'swap'):
@@ -478,6 +496,20 @@ def free_call(tr, name, sig, argn, n):
         if name == 'addressof':
             return tr.addr(argn[0])
         return tr.e(argn[0])
+    if name == 'count' and len(argn) == 3:
+        b, e = strip(argn[0]), strip(argn[1])
+        def whole_(x, which):
+            while x.get('kind') in ('ImplicitCastExpr', 'MaterializeTemporaryExpr', 'CXXConstructExpr', 'ExprWithCleanups') and x.get('inner'):
+                x = strip(x['inner'][-1])
+            if x.get('kind') == 'CXXMemberCallExpr':
+                me = strip(x['inner'][0])
+                if me.get('kind') == 'MemberExpr' and me.get('name') in which:
+                    return me['inner'][0]
+            return None
+        wb, we = whole_(b, ('begin', 'cbegin')), whole_(e, ('end', 'cend'))
+        if wb is not None and we is not None and tr.e(wb) == tr.e(we) and tr.klass(wb) in ('sv', 'str'):
+            return 'sv_count__c(%s, %s)' % (as_sv(tr, wb), tr.e(argn[2]))
+        return None
     if name in ('any_of', 'all_of', 'none_of') and len(argn) == 3:
         # iterator-pair form std::any_of(x.begin(), x.end(), pred) over one string / view
         b, e = strip(argn[0]), strip(argn[1])
